@@ -162,6 +162,11 @@ func (d *dispatcher) ServeHTTP(w http.ResponseWriter, req *http.Request) {
 
 	responder := newErrorResponder(d.codecs, endpoint, requestInfo, extraInfo.ReaderWriter)
 
+	// the answer relayed to the client is the upstream's: drop the default
+	// Cache-Control the filter chain puts on every response, otherwise it is
+	// mixed into (or added to) the upstream's headers
+	w.Header().Del("Cache-Control")
+
 	proxyHandler := NewUpgradeAwareHandler(location, endpoint.ProxyTransport, endpoint.PorxyUpgradeTransport, false, false, responder)
 	proxyHandler.ServeHTTP(w, newReq)
 }
